@@ -1,4 +1,4 @@
-From Verif Require Export Bytes Arr Wf Value.
+From Verif Require Export Bytes Arr Wf ArrEq Value Builder.
 Local Open Scope nat_scope.
 
 Record Case := { c_fields : list Field; c_rows : list Value; c_impl : Outcome (list Arr) }.
@@ -35,4 +35,21 @@ Definition oracle_code (c : Case) : N :=
   end.
 
 Definition oracle (c : Case) : bool := (oracle_code c =? 0)%N.
-Definition corr (c : Case) : bool := true.
+(* correspondence with the builder model, for schemas inside the modelled core *)
+Definition corr (c : Case) : bool :=
+  match to_marrow (c_fields c) (c_rows c) with
+  | None => true
+  | Some mo =>
+    match mo, c_impl c with
+    | Ok a, Ok i => list_eqb arr_eqb a i
+    | Err, Err => true
+    | Panic _, Panic _ => true
+    | _, _ => false
+    end
+  end.
+Definition modelled (c : Case) : bool := match to_marrow (c_fields c) (c_rows c) with Some _ => true | None => false end.
+(* [cases inside the builder model; cases fully judged by the specification oracle] *)
+Definition info (cs : list Case) : list N :=
+  [N.of_nat (length (filter modelled cs));
+   N.of_nat (length (filter (fun c => match c_impl c, iall (map (interp (top_field c)) (c_rows c)) with
+                                      | Ok _, Some (Some _) => true | _, _ => false end) cs))].
